@@ -635,6 +635,7 @@ def unit_iter_tokens(sess, ctx, active):
             gh.update({"n": n, "f": f, "g": g, "reads": n, "eos_seen": False, "yielded_end": g.last_end,
                        "in_loop": True, "yields_this_iter": 0})
             eng.havoc_loop_locals(s, fr)
+            eng.loop_guard_holds(s, fr, props=ALLTOK)
             try:
                 eng.exec_block(s.body, fr)
             except Exception as ex:
